@@ -38,8 +38,10 @@ ChooseFault == pc = "gen" /\ Len(frames) >= 1 /\ pc' = "fault"
                \/ \E kind \in {"cut", "readerr"}, p \in 0..StreamLen(frames) : fault' = [kind |-> kind, pos |-> p]
             /\ UNCHANGED <<frames, k, got, pos, out, err>>
 Start == pc = "fault" /\ pc' = "header" /\ UNCHANGED <<frames, fault, k, got, pos, out, err>>
-      /\ \A fr \in Frags : \A c \in {"parselog", "evallog", "evalrange"} :
-            PrintT(<<"CASE", ToJson([in |-> [frames |-> frames, fault |-> fault, frag |-> fr, consumer |-> c]])>>)
+      \* beside: the query also selects a second, healthy container (what is observed of THIS stream must not change:
+      \* in particular its failure is still the query's failure, wherever in the stream it sits)
+      /\ \A fr \in Frags : \A c \in {"parselog", "evallog", "evalrange"} : \A bs \in (IF c = "parselog" THEN {FALSE} ELSE BOOLEAN) :
+            PrintT(<<"CASE", ToJson([in |-> [frames |-> frames, fault |-> fault, frag |-> fr, consumer |-> c, beside |-> bs]])>>)
 
 \* ---- transport: how many bytes a Read may deliver at stream offset pos
 Limit == IF fault.kind = "none" THEN StreamLen(frames) ELSE fault.pos
